@@ -37,6 +37,7 @@ type c08Case struct {
 	ErrUs    int    `json:"error_sink_delay_us"` // a slow error sink (terminal, pipe): the backlog outlasts the exit delay
 	Workers  int    `json:"workers"`
 	Rate     bool   `json:"rate_limiter"`
+	RateStr  string `json:"rate,omitempty"` // a specific (slow) rate instead of the unnoticeable one of Rate
 	Direct   bool   `json:"direct_engine"` // observe the engine's done channel instead of going through startScanEngine
 	ExitMs   int    `json:"exit_delay_ms"`
 	PortsArg bool   `json:"addresses_x_ports_mode"`
@@ -204,6 +205,14 @@ func c08Check(c c08Case) *kit.Verdict {
 	if c.Rate {
 		o.rateCount, o.rateWindow = 1000000, time.Second
 	}
+	if c.RateStr != "" {
+		n, w, err := parseRateLimit(c.RateStr)
+		if err != nil {
+			return v.Failf("harness: rate %q: %v", c.RateStr, err)
+		}
+		o.rateCount, o.rateWindow = n, w
+		v.Label("slow-rate")
+	}
 	sc := &c08Scanner{c: c, calls: map[int]int{}}
 	engine := o.newScanEngine(ctx, sc)
 	out := &c08Writer{stall: time.Duration(c.StallMs) * time.Millisecond}
@@ -311,7 +320,7 @@ func TestC08Engine(t *testing.T) {
 	maxN := kit.EnvInt("C08_MAXN", 3000)
 	kit.Run(t, kit.Spec[c08Case]{
 		Prop: "C08",
-		Rule: "target file of 0..5000 ip/port lines (more positives than the 2x1000-slot result buffers, more errors than the 100-slot error buffer) with a drawn outcome per target (positive / negative / probe error / bad-address line / bad-port line) and latency class (optionally a tail of slow positive probes so that the scan outlasts the exit delay), workers 1..1000, rate limiter on/off, optionally an error sink that takes 4 ms per record (the backlog of errors outlasts the exit delay), through genericScanCmdOpts.newScanEngine (real file generator, real engine, real ResultChan) and either engine.Start directly (done observed: nothing in flight, all finished) or startScanEngine with the real JSON logger and exit delay >= default. Oracle: each probe-able target scanned exactly once, output records = positives, error records = failures (multisets). non-trivial: >100 targets, >=2 workers, all three probe outcomes present; distinct by case",
+		Rule: "target file of 0..5000 ip/port lines (more positives than the 2x1000-slot result buffers, more errors than the 100-slot error buffer) with a drawn outcome per target (positive / negative / probe error / bad-address line / bad-port line) and latency class (optionally a tail of slow positive probes so that the scan outlasts the exit delay), workers 1..1000, rate limiter on/off (for one or two targets also rates below one probe per second), optionally an error sink that takes 4 ms per record (the backlog of errors outlasts the exit delay), through genericScanCmdOpts.newScanEngine (real file generator, real engine, real ResultChan) and either engine.Start directly (done observed: nothing in flight, all finished) or startScanEngine with the real JSON logger and exit delay >= default. Oracle: each probe-able target scanned exactly once, output records = positives, error records = failures (multisets). non-trivial: >100 targets, >=2 workers, all three probe outcomes present; distinct by case",
 		Gen: func(t *rapid.T) c08Case {
 			c := c08Case{}
 			c.N = rapid.SampledFrom([]int{0, 1, 2, 50, 101, 150, 400, 1200, maxN}).Draw(t, "n")
@@ -361,6 +370,11 @@ func TestC08Engine(t *testing.T) {
 				c.TailMs = c.ExitMs + 120
 			}
 			c.StallMs = rapid.SampledFrom([]int{0, 0, 40, 80}).Draw(t, "stall")
+			if c.N >= 1 && c.N <= 2 && rapid.Bool().Draw(t, "slow-rate") {
+				// legal rates below one probe per second (the scan of two targets takes a second or two)
+				c.RateStr = rapid.SampledFrom([]string{"1/1001ms", "1/1500ms", "30/m", "2/3s"}).Draw(t, "rate-str")
+				c.Rate = false
+			}
 			return c
 		},
 		Check: c08Check,
